@@ -748,6 +748,10 @@ def standin_convert_expr(tier, seed):
                 v = Tup([('strings', list(chunk)), ('v', v)])
             tr[fmt] = v
         triples.append(tr)
+    # fixed: the LAST scalar of the converted document is a string ending in newline(s) / blanks (nothing may trim the converter's text)
+    for tail in ('x\ny\n', 'a\n\n', 'trail ', '\n', 'line one\nline two\n'):
+        triples.append({'json': Tup([('a', 1), ('w', tail)]), 'yaml': Tup([('a', 1), ('w', tail)]), 'toml': Tup([('a', 1), ('w', tail)])})
+        triples.append({'json': ['k', tail], 'yaml': ['k', tail], 'toml': Tup([('l', ['k', tail])])})
     # (bound to names first: the parser's running time grows steeply with the nesting depth of a literal)
     sources = ['let v1 = %s;\nlet v2 = %s;\nlet v3 = %s;\nout json {j = convert json v1, y = convert yaml v2, t = convert toml v3};\n'
                % (ucg_lit(t['json']), ucg_lit(t['yaml']), ucg_lit(t['toml'])) for t in triples]
